@@ -4,7 +4,7 @@ from __future__ import annotations
 import ast
 from typing import Dict, List, Set, Tuple
 
-from ..astq import U
+from ..astq import U, statements, store_targets
 from ..effects import CallGraph, StateWrites
 from ..index import AnalysisError, Func
 from ..interp import FuncRef
@@ -412,3 +412,33 @@ def memoised_readers(ctx):
                 out.append((f, decos[0], c))
                 break
     return out
+
+
+# ---------------------------------------------------------------- the read-only API of the models stores nothing on the model
+READ_API = ("estimate", "compute_individual_trajectory", "compute_individual_tensorized", "compute_prior_trajectory", "compute_mean_traj", "compute_mode_traj")
+
+
+def model_stores_in_read_api(ctx):
+    """[(function, statement, attribute)]: stores `self.<attr> = ...` / `setattr(self, ...)` made by methods of the model classes that are
+    reachable from estimate / compute_*_trajectory.  Those calls are documented as reading the model only: whatever one of them remembers
+    on the model object (a memo of its inputs, a scratch state ...) is served to the next call."""
+    ix = ctx.ix
+    cg = callgraph(ctx)
+    roots = [f for f in ix.iter_funcs() if f.name in READ_API and f.mod.startswith("leaspy.models") and f.cls is not None]
+    region = cg.reach(roots)
+    out = []
+    for k in sorted(region):
+        f = ix.funcs[k]
+        if not f.mod.startswith("leaspy.models") or f.cls is None or f.name == "__init__":
+            continue
+        for st in statements(f.node):
+            if isinstance(st, (ast.Assign, ast.AugAssign, ast.AnnAssign)):
+                for t in store_targets(st):
+                    base = t
+                    while isinstance(base, ast.Subscript):
+                        base = base.value
+                    if isinstance(base, ast.Attribute) and isinstance(base.value, ast.Name) and base.value.id == "self" and (st.value is not None if isinstance(st, ast.AnnAssign) else True):
+                        out.append((f, st, base.attr))
+            elif isinstance(st, ast.Expr) and isinstance(st.value, ast.Call) and U(st.value.func) in ("setattr", "object.__setattr__") and st.value.args and U(st.value.args[0]) == "self":
+                out.append((f, st, U(st.value.args[1]) if len(st.value.args) > 1 else "?"))
+    return out, len(region)
